@@ -982,3 +982,21 @@ Proof.
   intros Ha. destruct (wf_of _ _ Ha) as [Wa La]. unfold c10_hexval, c10_print.
   destruct (print_fold (rev a) 0 (Forall_rev Wa)) as [V L]. rewrite rev_involutive, rev_length in *. split; [rewrite V; lia|congruence].
 Qed.
+
+(* mixed operations with a built-in unsigned: the free operator templates construct a temporary
+   through assign and then apply the member operator *)
+Lemma P_mixed n2 n a u : c10_wf n a -> u < 2 ^ 64 -> (n <= n2)%nat ->
+  let t := c10_assign n u in
+  c10_wf n t /\ c10_val t = u mod 2 ^ c10_spec_width n /\
+  same_val n (c10_add a t) (c10_spec_binop n OpAdd (c10_val a) (c10_val t)) /\
+  same_val n (c10_add t a) (c10_spec_binop n OpAdd (c10_val t) (c10_val a)) /\
+  same_val n (c10_sub a t) (c10_spec_binop n OpSub (c10_val a) (c10_val t)) /\
+  same_val n (c10_sub t a) (c10_spec_binop n OpSub (c10_val t) (c10_val a)) /\
+  same_val n (c10_mul n2 a t) (c10_spec_binop n OpMul (c10_val a) (c10_val t)) /\
+  same_val n (c10_mul n2 t a) (c10_spec_binop n OpMul (c10_val t) (c10_val a)).
+Proof.
+  intros Ha Hu Hn t. destruct (P_construct n u Hu) as (Wt & Vt & _).
+  destruct (P_ring n2 n a t Ha Wt Hn) as (A1 & S1 & M1 & _).
+  destruct (P_ring n2 n t a Wt Ha Hn) as (A2 & S2 & M2 & _).
+  repeat split; try apply Wt; try exact Vt; try apply A1; try apply A2; try apply S1; try apply S2; try apply M1; try apply M2.
+Qed.
